@@ -13,6 +13,13 @@ CHECKS = {
         design_ref="3/C16",
         note="Trusts TLC, the projection in harness/drivers/dirstack.py and the bounded universe (tree of 5 dirs + 2 links, N<=3, stack<=3 in the exhaustive run).",
     ),
+    "C20": dict(
+        category="model_checking",
+        technique="TLA+ spec Jobs checked by TLC; transition tours over the dumped state graph and TLC-simulated behaviours replayed on the real xonsh.procs.jobs module (stub processes, real alias thread); recorded executions validated against JobsTrace by TLC",
+        text="TLC exhausts the Jobs model (dictionary + MRU deque + lazily purged dead jobs; fg/bg/disown/jobs with every argument form on main and alias threads) for permutation, lowest-free numbering, purge, selection and error-alters-nothing properties; every edge of the MaxJobs=3 state graph (thorough) is executed on the real module and each recorded execution must be a behaviour of the spec.",
+        design_ref="3/C20",
+        note="Trusts TLC and the stub process objects (poll() scripted, no real signals); real process registration through _run_command_pipeline is not exercised in this tier.",
+    ),
 }
 
 ALL = [f"C{i:02d}" for i in range(1, 21)]
